@@ -257,5 +257,45 @@ int main(int argc, char** argv)
     prop.id = "C09";
     prop.gen = genCase;
     prop.run = runCase;
+    // coverage-guided mode: operation kinds 0..6, any ids, batches normalised like the generator's (empty batches, error-flagged packets,
+    // zero-length payloads and message type 0 are all part of C09's domain), bounded bulk encodes
+    prop.normalize = [](OpSeq& s) {
+        if (s.ops.size() > 14)
+            s.ops.resize(14);
+        EncNormParams np;
+        np.allowEmptyBatch = true;
+        np.allowErrorFlag = true;
+        np.allowEmptyPayload = true;
+        np.allowMsgType0 = true;
+        np.maxBatch = 8;
+        np.frameBudget = 3000;
+        uint32_t bulk = 0;
+        for (auto& op : s.ops)
+        {
+            op.op = static_cast<uint8_t>(op.op % 7);
+            if (op.op == 0)
+                op.arg &= 0xFFFF;
+            else if (op.op == 1)
+                op.arg &= 0xFF;
+            else if (op.op == 4)
+            {
+                op.arg = op.arg % 66001;
+                if (bulk + op.arg > 70000)
+                    op.arg = 1 + op.arg % 50;
+                bulk += op.arg;
+            }
+            else
+                op.arg = 0;
+            if (op.op == 3 || op.op == 5 || op.op == 6)
+            {
+                normalizeEncCase(op.batch, np);
+                op.batch.prior.clear();
+                op.batch.dev = 0;
+                op.batch.stream = 0;
+            }
+            else
+                op.batch = EncCase{};
+        }
+    };
     return pbtMain(argc, argv, prop);
 }
